@@ -365,6 +365,7 @@ static int run_one(void) {
   if (WIFSIGNALED(st)) snprintf(what, sizeof what, "%s", signame(WTERMSIG(st)));
   else if (WEXITSTATUS(st) == 77) snprintf(what, sizeof what, "SANITIZER");
   else if (WEXITSTATUS(st) == 1) snprintf(what, sizeof what, "UNCAUGHT-OR-EXIT1");
+  else if (WEXITSTATUS(st) == 12) snprintf(what, sizeof what, "RAN-WITHOUT-BATON");
   else snprintf(what, sizeof what, "EXIT%d", WEXITSTATUS(st));
   const char* prop = shm->prop[0] ? shm->prop : g_sc->dflt_prop;
   snprintf(cls, sizeof cls, "%s:crash:%s:%s", prop, what, shm->opname[0] ? shm->opname : "-");
